@@ -16,7 +16,11 @@
 //!                                      until the matcher has sent and committed the events (they stay in the pipe)
 //!   wblock <n>                         insert n ≥ 513 rows and do NOT drain `evt_rx`: the matcher blocks after 512
 //!                                      sends, inside its transaction (events sent, log not committed)
-//!   commit                             drain `evt_rx` so that the blocked matcher finishes and commits
+//!   wpause ins|upd|del <n>             one local transaction changing n rows, 1 ≤ n ≤ 511, with the pause hook
+//!                                      (`klukai_types::pubsub::verif_hooks`) armed: the matcher sends the n events
+//!                                      (they go to the pipe) and stops right BEFORE `tx.commit()` of its batch
+//!   commit                             drain `evt_rx` so that the blocked matcher finishes and commits / let the
+//!                                      paused matcher commit; waits for the commit
 //!   prune                              the `PurgeOldChanges` statement (text taken from the source) on the sub db
 //!   pub <k>|all                        publish the next k pipe events on the broadcast channel
 //!   sub <sid>                          `tx.subscribe()` only (receiver exists, catch-up not started)
@@ -41,7 +45,7 @@ use klukai_types::base::CrsqlDbVersion;
 use klukai_types::broadcast::{BroadcastInput, BroadcastV1, ChangeV1, Changeset};
 use klukai_types::change::Change;
 use klukai_types::config::Config;
-use klukai_types::pubsub::{ChangeType, Matcher, MatcherHandle, pack_columns};
+use klukai_types::pubsub::{ChangeType, Matcher, MatcherHandle, pack_columns, verif_hooks};
 use klukai_types::tripwire::Tripwire;
 use klukai_types::updates::{Handle, match_changes};
 use tokio::sync::{Semaphore, broadcast, mpsc};
@@ -127,6 +131,20 @@ struct Ev {
     id: u64,
 }
 
+/// The pause gate is one static of the process: whatever way a case ends, a matcher waiting at it is let go.
+#[derive(Default)]
+struct PauseGate {
+    armed: bool,
+}
+
+impl Drop for PauseGate {
+    fn drop(&mut self) {
+        if self.armed {
+            verif_hooks::release();
+        }
+    }
+}
+
 struct World {
     agent: Agent,
     _opts: AgentOptions,
@@ -145,6 +163,9 @@ struct World {
     pending_rows: u64,
     next_id: u64,
     blocked_rem: u64,
+    /// the matcher waits at the pause point: `committed+1 ..= sent` are sent (in the pipe or beyond), not committed
+    paused: bool,
+    pause_gate: PauseGate,
     init_rows: BTreeMap<u64, Vec<String>>,
     history: Vec<Ev>,
     subs: Vec<SubC>,
@@ -342,6 +363,8 @@ async fn start_world(dir: &std::path::Path, rows: u64, bcap: u64, attempt: u32) 
         pending_rows: rows,
         next_id: rows + 1,
         blocked_rem: 0,
+        paused: false,
+        pause_gate: PauseGate::default(),
         init_rows,
         history: vec![],
         subs: vec![],
@@ -469,7 +492,7 @@ impl World {
     }
 
     async fn write(&mut self, kind: &str, n: u64) -> Result<String, String> {
-        if self.blocked_rem > 0 {
+        if self.blocked_rem > 0 || self.paused {
             return Err("bad-op".into());
         }
         let sql = match kind {
@@ -505,7 +528,7 @@ impl World {
     }
 
     async fn wblock(&mut self, n: u64) -> Result<String, String> {
-        if self.blocked_rem > 0 || self.published != self.sent || n <= EVT_CAP || !self.pipe.is_empty() {
+        if self.blocked_rem > 0 || self.paused || self.published != self.sent || n <= EVT_CAP || !self.pipe.is_empty() {
             return Err("bad-op".into());
         }
         self.take_available();
@@ -536,7 +559,133 @@ impl World {
         Ok(format!("ok sent={}", self.sent))
     }
 
+    fn gate_is_paused() -> bool {
+        verif_hooks::wait_until_paused(Duration::ZERO)
+    }
+
+    /// opens the gate for the matcher waiting at it and waits until it has gone through
+    async fn let_matcher_pass(&mut self) -> Result<(), String> {
+        verif_hooks::release();
+        wait_until("the matcher to leave the pause point", || !Self::gate_is_paused()).await?;
+        self.pause_gate.armed = false;
+        Ok(())
+    }
+
+    /// Nothing is queued for the matcher and it is not inside a batch: the probe keys of earlier ops (`nudge`) have
+    /// all been processed.  One more probe batch is sent with the gate armed; the batch that stops at the gate while
+    /// the candidate channel is empty is the last one.
+    async fn quiesce_matcher(&mut self) -> Result<(), String> {
+        let tx = self.handle.changes_tx();
+        let t0 = Instant::now();
+        verif_hooks::arm();
+        self.pause_gate.armed = true;
+        self.nudge();
+        loop {
+            if t0.elapsed() > LONG {
+                return Err("timeout waiting for the matcher to become idle".into());
+            }
+            if !tokio::task::block_in_place(|| verif_hooks::wait_until_paused(Duration::from_millis(50))) {
+                continue;
+            }
+            let s = self.handle.last_change_id_sent().0;
+            if s != self.sent {
+                return Err(format!("matcher sent change {s} while it should be idle at {}", self.sent));
+            }
+            let empty = tx.capacity() == tx.max_capacity();
+            self.let_matcher_pass().await?;
+            if empty {
+                return Ok(());
+            }
+            verif_hooks::arm();
+            self.pause_gate.armed = true;
+        }
+    }
+
+    /// `w` with the pause hook armed: the matcher sends the events of the batch and stops before its commit
+    async fn wpause(&mut self, kind: &str, n: u64) -> Result<String, String> {
+        if self.blocked_rem > 0 || self.paused || n == 0 || n >= EVT_CAP {
+            return Err("bad-op".into());
+        }
+        let sql = match kind {
+            "ins" => {
+                let (a, b) = (self.next_id, self.next_id + n - 1);
+                format!("INSERT INTO t (id, v) WITH RECURSIVE c(x) AS (SELECT {a} UNION ALL SELECT x+1 FROM c WHERE x < {b}) SELECT x, 0 FROM c")
+            }
+            // a transaction that changes nothing produces no batch to pause
+            "upd" | "del" if self.rows == 0 => return Err("bad-op".into()),
+            "upd" => format!("UPDATE t SET v = v + 1 WHERE id IN (SELECT id FROM t ORDER BY id LIMIT {n})"),
+            "del" => format!("DELETE FROM t WHERE id IN (SELECT id FROM t ORDER BY id LIMIT {n})"),
+            _ => return Err("bad-op".into()),
+        };
+        self.take_available();
+        self.quiesce_matcher().await?;
+        verif_hooks::arm();
+        self.pause_gate.armed = true;
+        let affected = self.exec_write(sql).await?;
+        if affected == 0 || affected > n {
+            return Err(format!("write affected {affected} rows, expected 1..={n}"));
+        }
+        let want = self.sent + affected;
+        // the candidates are with the matcher; it handles them when the probe keys arrive (or at its deadline) and
+        // stops at the gate: all events sent, nothing committed
+        let t0 = Instant::now();
+        let mut last_nudge: Option<Instant> = None;
+        loop {
+            if last_nudge.map(|t| t.elapsed() > Duration::from_millis(40)).unwrap_or(true) {
+                self.nudge();
+                last_nudge = Some(Instant::now());
+            }
+            if tokio::task::block_in_place(|| verif_hooks::wait_until_paused(Duration::from_millis(20))) {
+                break;
+            }
+            if t0.elapsed() > LONG {
+                return Err("timeout waiting for the matcher to reach the pause point".into());
+            }
+        }
+        let s = self.handle.last_change_id_sent().0;
+        if s != want {
+            // the matcher's 600 ms deadline fell between two chunks of the transaction: not the schedule asked for
+            return Err(format!("timeout: the matcher paused after change {s}, the batch should end at {want}"));
+        }
+        let t0 = Instant::now();
+        while self.taken < want {
+            self.take_available();
+            if t0.elapsed() > LONG {
+                return Err(format!("timeout waiting for event {want} on the matcher channel (have {})", self.taken));
+            }
+            tokio::task::yield_now().await;
+        }
+        let m = self.log_max().await?;
+        if m != self.committed {
+            self.fails.push(format!("matcher: log at {m} while the batch is sent and not committed (committed before: {})", self.committed));
+        }
+        self.sent = want;
+        self.paused = true;
+        match kind {
+            "ins" => {
+                self.pending_rows = self.rows + affected;
+                self.next_id += n;
+            }
+            "del" => self.pending_rows = self.rows - affected.min(self.rows),
+            _ => self.pending_rows = self.rows,
+        }
+        Ok(format!("ok ev={affected} sent={}", self.sent))
+    }
+
     async fn commit(&mut self) -> Result<String, String> {
+        if self.paused {
+            let m = self.log_max().await?;
+            if m != self.committed || !Self::gate_is_paused() {
+                return Err(format!("the matcher did not stay at the pause point (log at {m}, committed before: {})", self.committed));
+            }
+            self.let_matcher_pass().await?;
+            let want = self.sent;
+            self.wait_committed(want).await?;
+            self.committed = want;
+            self.paused = false;
+            self.rows = self.pending_rows;
+            return Ok(format!("ok sent={}", self.sent));
+        }
         if self.blocked_rem == 0 {
             return Err("bad-op".into());
         }
@@ -551,7 +700,8 @@ impl World {
     }
 
     async fn prune(&mut self) -> Result<String, String> {
-        if self.blocked_rem > 0 {
+        // (the paused matcher holds the write lock of the subscription database)
+        if self.blocked_rem > 0 || self.paused {
             return Err("bad-op".into());
         }
         let sql = purge_sql().ok_or("the purge statement was not found in klukai-types/src/pubsub.rs")?;
@@ -706,6 +856,13 @@ impl World {
             Mode::From(n) => serde_json::from_str(&format!(r#"{{"from":{n}}}"#)),
         }
         .map_err(|e| format!("SubParams: {e}"))?;
+        if self.paused {
+            self.tags.push("attach-while-matcher-paused".into());
+            // every uncommitted event was broadcast before this receiver existed: it has nothing to buffer
+            if self.published == self.sent && self.subs[idx].published_at_sub == self.published {
+                self.tags.push("attach-between-send-and-commit".into());
+            }
+        }
         let (ctx, mut crx) = mpsc::channel::<Msg>(1);
         let brx = self.subs[idx].brx.take().ok_or("receiver already used")?;
         let stuck = self.published - self.subs[idx].published_at_sub > self.bcap;
@@ -792,6 +949,9 @@ impl World {
 
     async fn release(&mut self, sid: &str) -> Result<String, String> {
         let idx = self.find(sid).filter(|i| self.subs[*i].state == SubState::Held).ok_or("bad-op")?;
+        if self.paused {
+            self.tags.push("release-while-matcher-paused".into());
+        }
         self.subs[idx].gate.add_permits(Semaphore::MAX_PERMITS / 2);
         self.await_live(idx).await
     }
@@ -1203,6 +1363,10 @@ async fn run_case(ops: &[String], dir: &std::path::Path, attempt: u32) -> Result
                 Ok(n) if n <= 2_000 => w.wblock(n).await,
                 _ => Err("bad-op".into()),
             },
+            (["wpause", kind, n], Some(w)) => match n.parse::<u64>() {
+                Ok(n) if n >= 1 && n < EVT_CAP => w.wpause(kind, n).await,
+                _ => Err("bad-op".into()),
+            },
             (["commit"], Some(w)) => w.commit().await,
             (["prune"], Some(w)) => w.prune().await,
             (["pub", k], Some(w)) => {
@@ -1275,6 +1439,9 @@ async fn run_case(ops: &[String], dir: &std::path::Path, attempt: u32) -> Result
         }
         tags.extend(std::mem::take(&mut w.tags));
         fails.extend(std::mem::take(&mut w.fails));
+        if w.paused {
+            w.let_matcher_pass().await?;
+        }
         // stop the matcher
         if let Some(h) = w.agent.subs_manager().remove(&w.handle.id()) {
             h.cleanup().await;
@@ -1284,6 +1451,9 @@ async fn run_case(ops: &[String], dir: &std::path::Path, attempt: u32) -> Result
         let k = op.split_whitespace().next().unwrap_or("");
         if k == "wblock" {
             tags.push("uncommitted-batch".into());
+        }
+        if k == "wpause" {
+            tags.push("paused-batch".into());
         }
         if k == "prune" {
             tags.push("prune".into());
@@ -1300,7 +1470,7 @@ impl Prop for C12 {
         "C12"
     }
     fn rule(&self) -> &'static str {
-        "one case = one schedule: a history of matcher batches (sent/committed/uncommitted), pipe deliveries and purges interleaved \
+        "one case = one schedule: a history of matcher batches (sent/committed/uncommitted, incl. small batches held between send and commit), pipe deliveries and purges interleaved \
          with the attach/hold/release of 1-3 subscribers through the real catch_up_sub, or one scripted stream through the real client \
          library; non-trivial iff a subscriber attached to a subscription that produced at least one change (or a client script ran); \
          distinct by hash of the op list"
@@ -1465,9 +1635,205 @@ fn gen_client(rng: &mut Rng) -> Vec<String> {
     vec![format!("client {} {}", from.map(|f| f.to_string()).unwrap_or("-".into()), if items.is_empty() { "-".to_string() } else { items.join(",") })]
 }
 
+/// generator-side view of one subscriber of a pause case
+struct PS {
+    sid: String,
+    /// 0 = `sub` only, 1 = attached with the first read held, 2 = attached
+    st: u8,
+    pub_at: u64,
+}
+
+fn pick_mode(rng: &mut Rng, g: &G) -> String {
+    match rng.below(20) {
+        0..=6 => "new".to_string(),
+        7 | 8 => "skip".to_string(),
+        _ => {
+            let n = match rng.below(8) {
+                // the seed of C12-1: resume exactly at the head of the log
+                0..=3 => g.committed,
+                // claimed ids that are sent and not committed (beyond the head while the matcher is paused)
+                4 => g.sent,
+                5 => g.pruned,
+                _ => rng.range(g.pruned, g.committed.max(g.pruned)),
+            };
+            format!("from:{n}")
+        }
+    }
+}
+
+fn holdable(mode: &str, g: &G) -> bool {
+    match mode.strip_prefix("from:").and_then(|x| x.parse::<u64>().ok()) {
+        Some(n) => g.committed.saturating_sub(n.max(g.pruned)) >= 3,
+        None => mode == "new" && g.rows >= 2,
+    }
+}
+
+/// Cases around ONE batch that the matcher has sent and not yet committed (`wpause`: it waits at the pause point
+/// before `tx.commit()`), small batches mostly: `sub`, `attach new|skip|from:N hold|free`, `release`, `pub`, `recv`
+/// in every position relative to the batch, to its delivery by the pipe and to its `commit`.
+fn gen_pause_case(rng: &mut Rng) -> Vec<String> {
+    let rows = rng.range(3, 6);
+    let bcap = *rng.pick(&[16u64, 64, 16384]);
+    let mut g = G { ops: vec![format!("init {rows} {bcap}")], rows, sent: 0, committed: 0, published: 0, pruned: 0, blocked: 0, bcap, readers: false };
+    for _ in 0..rng.below(3) {
+        let big = rng.chance(1, 3);
+        g.w(rng, big);
+    }
+    match rng.below(5) {
+        0 => {}
+        1 => g.pub_k(rng.range(1, 3)),
+        _ => g.pub_all(),
+    }
+    // a receiver that exists before its catch-up starts makes `pub` not wait for the other readers: alone in its case
+    let pre = rng.chance(1, 3);
+    let nsubs = if pre { 1 } else { [1, 1, 1, 2, 2, 3][rng.below(6) as usize] };
+    let mut subs: Vec<PS> = vec![];
+    let mut paused = false;
+    let mut pend_rows = g.rows;
+    let n = match rng.below(20) {
+        0..=7 => 1,
+        8..=11 => 2,
+        12..=14 => 3,
+        15..=17 => rng.range(4, 9),
+        _ => rng.range(20, 200),
+    };
+
+    // one step of the subscribers / the pipe
+    fn step(rng: &mut Rng, g: &mut G, subs: &mut Vec<PS>, nsubs: usize, pre: bool) {
+        match rng.below(9) {
+            0 | 1 => g.pub_all(),
+            2 => g.pub_k(rng.range(1, 3)),
+            3 if pre && subs.is_empty() => {
+                g.ops.push("sub s0".into());
+                subs.push(PS { sid: "s0".into(), st: 0, pub_at: g.published });
+            }
+            3..=5 => {
+                // attach a receiver that exists, or a new subscriber
+                let idx = match subs.iter().position(|p| p.st == 0) {
+                    Some(i) => i,
+                    None if subs.len() < nsubs => {
+                        subs.push(PS { sid: format!("s{}", subs.len()), st: 0, pub_at: g.published });
+                        subs.len() - 1
+                    }
+                    None => return,
+                };
+                let mut mode = pick_mode(rng, g);
+                let buffered = g.published > subs[idx].pub_at;
+                // a receiver that already holds events is attached with its first read held (see `gen_case`)
+                if buffered && !holdable(&mode, g) {
+                    mode = "new".into();
+                }
+                let hold = holdable(&mode, g) && (buffered || rng.chance(1, 2));
+                if buffered && !hold {
+                    return;
+                }
+                g.ops.push(format!("attach {} {mode} {}", subs[idx].sid, if hold { "hold" } else { "free" }));
+                subs[idx].st = if hold { 1 } else { 2 };
+                g.readers = true;
+            }
+            6 | 7 => {
+                if let Some(p) = subs.iter_mut().find(|p| p.st == 1) {
+                    g.ops.push(format!("release {}", p.sid));
+                    p.st = 2;
+                }
+            }
+            _ => {
+                if let Some(p) = subs.iter().find(|p| p.st == 2) {
+                    g.ops.push(format!("recv {}", p.sid));
+                }
+            }
+        }
+    }
+
+    // before the batch: nothing, a receiver, a held reader, a live subscriber
+    for _ in 0..rng.below(3) {
+        step(rng, &mut g, &mut subs, nsubs, pre);
+    }
+    // the batch
+    {
+        let kind = match rng.below(6) {
+            0..=2 => "ins",
+            3 | 4 => "upd",
+            _ => "del",
+        };
+        let (kind, n) = if kind == "del" && g.rows < n + 3 { ("ins", n) } else { (kind, n) };
+        let ev = match kind {
+            "ins" => {
+                pend_rows = g.rows + n;
+                n
+            }
+            "upd" => n.min(g.rows),
+            _ => {
+                pend_rows = g.rows - n;
+                n
+            }
+        };
+        g.ops.push(format!("wpause {kind} {n}"));
+        g.sent += ev;
+        paused = true;
+    }
+    // the window of seed C12-1, often: everything broadcast before anybody new looks
+    if rng.chance(1, 2) {
+        g.pub_all();
+    }
+    for _ in 0..rng.range(1, 4) {
+        step(rng, &mut g, &mut subs, nsubs, pre);
+    }
+    if rng.chance(7, 8) {
+        g.ops.push("commit".into());
+        g.committed = g.sent;
+        g.rows = pend_rows;
+        paused = false;
+        for _ in 0..rng.below(4) {
+            step(rng, &mut g, &mut subs, nsubs, pre);
+        }
+    }
+    // everybody attaches and is released
+    if subs.is_empty() {
+        subs.push(PS { sid: "s0".into(), st: 0, pub_at: g.published });
+    }
+    for i in 0..subs.len() {
+        if subs[i].st == 0 {
+            let mut mode = pick_mode(rng, &g);
+            let buffered = g.published > subs[i].pub_at;
+            if buffered && !holdable(&mode, &g) {
+                mode = "new".into();
+            }
+            let hold = holdable(&mode, &g) && (buffered || rng.chance(1, 3));
+            g.ops.push(format!("attach {} {mode} {}", subs[i].sid, if hold { "hold" } else { "free" }));
+            subs[i].st = if hold { 1 } else { 2 };
+            g.readers = true;
+        }
+        if subs[i].st == 1 {
+            if rng.chance(1, 2) {
+                g.pub_all();
+            }
+            g.ops.push(format!("release {}", subs[i].sid));
+            subs[i].st = 2;
+        }
+        g.ops.push(format!("recv {}", subs[i].sid));
+    }
+    // what follows the batch must follow it at the clients too
+    if !paused {
+        for _ in 0..rng.range(1, 2) {
+            g.w(rng, false);
+            g.pub_all();
+        }
+    } else {
+        g.pub_all();
+    }
+    for p in &subs {
+        g.ops.push(format!("recv {}", p.sid));
+    }
+    g.ops
+}
+
 fn gen_case(rng: &mut Rng, tier: Tier, index: usize) -> Vec<String> {
     if rng.chance(1, 6) {
         return gen_client(rng);
+    }
+    if rng.chance(2, 5) {
+        return gen_pause_case(rng);
     }
     if tier == Tier::Thorough && index % 75 == 33 {
         // more events than the catch-up queue holds while the first read is held
@@ -1685,6 +2051,14 @@ fn enumerated(_tier: Tier, index: usize) -> Option<Vec<String>> {
         12 => s(&["init 3 16384", "w ins 4", "pub all", "attach a from:0 hold", "w ins 10400", "pub 10000", "release a", "recv a", "pub all", "recv a"]),
         // several subscribers at different stages, events in flight at both hand-overs
         13 => s(&["init 3 16", "w ins 2", "attach a new hold", "w ins 2", "pub 3", "attach b from:1 hold", "w upd 3", "release a", "pub 2", "release b", "recv a", "recv b", "attach c skip free", "pub all", "w del 1", "pub all", "recv a", "recv b", "recv c"]),
+        // a batch sent and not committed (matcher at the pause point), broadcast before the subscriber exists, nothing
+        // buffered: five re-reads, then the error event (the window of seed C12-1; corpus/C12/attach_between_send_and_commit.ops)
+        14 => s(&["init 3 16", "w ins 2", "pub all", "wpause ins 1", "pub all", "attach a from:2 free", "recv a", "commit", "w ins 1", "pub all", "recv a"]),
+        // ... committed while the first read is held: the re-read delivers it, live forwarding continues after it
+        15 => s(&["init 3 16", "w ins 3", "pub all", "wpause upd 1", "pub all", "attach a from:0 hold", "commit", "release a", "recv a", "w ins 1", "pub all", "recv a"]),
+        // ... a held reader buffers the uncommitted events (first buffered id = last+1, not in the log), a second
+        // subscriber attaches after the commit
+        16 => s(&["init 4 16", "w ins 2", "pub all", "attach a new hold", "wpause ins 2", "pub 1", "release a", "recv a", "pub all", "commit", "attach b from:2 free", "recv b", "w del 1", "pub all", "recv a", "recv b"]),
         // the client library on gaps, duplicates, resume after a dropped connection
         8 => s(&["client - cols,row,eoq:3,c:4,c:5,c:7,c:8,c:6"]),
         9 => s(&["client 5 c:6,c:6,c:7"]),
